@@ -847,6 +847,9 @@ def resolveRest : Nat → List Part → Val → Bool → XM V
         match next with
         | none => pure (mkV .nil)
         | some nv => do
+          -- a nil held in an interface-typed element (`[]any{nil}`, a map entry, a field of type
+          -- any) is a valid reflect value until it is unwrapped: calling it is "not a function"
+          if nv.kind == .invalid && call.isSome then xerr "is not a function (it is invalid)" else
           let typedElems := typedElems cv
           let r ← afterPart fuel nv safe call typedElems
           match r with
